@@ -13,24 +13,26 @@ def run(rep):
     known_async = [f for f in kf["finding"] if f.get("property") == PID and f.get("class") == "async-channel-buffered-reply"]
 
     def per_model(rep, c, j, r):
-        # C20_no_hang needs a draining receiver; for async-channel based libs the premise fails: known finding class
+        # C20_no_hang needs a draining receiver (std, tokio) or the drain guard in play (async_std, smol, repair e47f24b)
         if r["drain"] != "true" and not known_async:
             return False
         return True
 
     owners, res = rt_common.run_runtime(rep, PID, "wf_C20",
         ["fun (A V : Type) sem sem_slf dv => @C20_loud A V sem sem_slf dv {i} {w}",
-         "fun (A V : Type) sem sem_slf dv => @C20_no_fabrication A V sem sem_slf dv {i} {w}"],
+         "fun (A V : Type) sem sem_slf dv => @C20_no_fabrication A V sem sem_slf dv {i} {w}",
+         "fun (A V : Type) sem sem_slf dv => @C20_no_hang A V sem sem_slf dv {i} {w} (eq_refl true <: r_drain (elab {i}) = true)"],
         rt_common.std_configs(rng, rep.tier),
         dfs=("bad_silent", "true"),
         search="c20_search", search_what="client 0 makes a method panic, clients 1 and 2 then call every method (Runtime/Explore.v faulted); anomalies: 1 completed without execution and without panic, 2 fabricated value, 3 caller still inside a call at the end",
         extra_funs=[("drain", "r_drain (elab {i})")], per_model_check=per_model)
     ndrain = sum(1 for r in res if r["drain"] == "true")
-    rep.notes.append("C20_no_hang instantiated for %d instances with a draining receiver (std, tokio); %d async-channel instances fall under the known-finding class" % (ndrain, len(res) - ndrain))
+    rep.notes.append("C20_no_hang instantiated for %d instances with a draining receiver (std, tokio) or a drain guard in play (async_std, smol); %d instances without" % (ndrain, len(res) - ndrain))
     runs = []
     for lib in gen_impl.LIBS:
         for ch in ((0, 1) if rep.tier == "quick" else (0, 1, 2, 3)):
             runs.append(["fault", lib, ch, "waiting=2", "later=4"])
+            runs.append(["fault", lib, ch, "waiting=1", "later=2", "units=2"])      # in-flight calls whose reply type is spelled `-> ()`
             if rep.tier != "quick":
                 runs.append(["fault", lib, ch, "waiting=3", "later=2", "order=adds_first"])
     hang_libs = ("async_std", "smol") if known_async else ()
